@@ -3,7 +3,7 @@ use std::sync::Arc;
 use crate::block_watcher::BlockWatcher;
 use crate::cln_plugin::{Builder, Plugin};
 use crate::email::EmailNotificationService;
-use crate::messages::BlockAddedNotification;
+use crate::messages::{BlockAddedNotification, HtlcAcceptedResponse};
 use crate::store::ClnDatastore;
 #[cfg(breez_trampoline_verif)]
 use crate::verif::seam::{Stdin, Stdout};
@@ -69,7 +69,13 @@ where
         Ok(req) => req,
         Err(e) => {
             error!("failed to deserialize htlc accepted request: {:?}", e);
-            return Err(e.into());
+            // A hook has to be answered with continue, fail or resolve, an
+            // error response is not something lightningd can act on. If the
+            // request cannot be understood this is not an htlc the plugin
+            // handles, so let lightningd continue with it.
+            return Ok(serde_json::to_value(HtlcAcceptedResponse::Continue {
+                payload: None,
+            })?);
         }
     };
     let resp = plugin.state().htlc_manager.handle_htlc(&req).await;
